@@ -289,17 +289,8 @@ pub open spec fn filter_is_dlf(f: &Filter, a: &VxAttrs) -> bool {
 impl Filter {
 //@ extract src/filter/filter_impl.rs region `if let Some(s) = attrs.get("type") {` .. `$end` in Filter::from_quick_xml_reader
 //@   sig pub fn dlf_from_attrs(mut filter: Filter, attrs: &VxAttrs) -> (r: Result<Filter, Error>)
-//@   sub R11 `attrs.get("enablefilter") == Some(&vx_opaque_string())` => `attrs.vx_flag("enablefilter")`
-//@   sub R11 `attrs.get("enableecuid") == Some(&vx_opaque_string())` => `attrs.vx_flag("enableecuid")`
-//@   sub R11 `attrs.get("enableapplicationid") == Some(&vx_opaque_string())` => `attrs.vx_flag("enableapplicationid")`
-//@   sub R11 `attrs.get("enablecontextid") == Some(&vx_opaque_string())` => `attrs.vx_flag("enablecontextid")`
-//@   sub R11 `attrs.get("enablecontrolmsgs") == Some(&vx_opaque_string())` => `attrs.vx_flag("enablecontrolmsgs")`
-//@   sub R11 `attrs.get("enablepayloadtext") == Some(&vx_opaque_string())` => `attrs.vx_flag("enablepayloadtext")`
-//@   sub R11 `attrs.get("ignoreCase_Payload") == Some(&vx_opaque_string())` => `attrs.vx_flag("ignoreCase_Payload")`
-//@   sub R11 `attrs.get("enableregexp_Payload") == Some(&vx_opaque_string())` => `attrs.vx_flag("enableregexp_Payload")`
-//@   sub R11 `attrs.get("enableLogLevelMax") == Some(&vx_opaque_string())` => `attrs.vx_flag("enableLogLevelMax")`
-//@   sub R11 `attrs.get("enableLogLevelMin") == Some(&vx_opaque_string())` => `attrs.vx_flag("enableLogLevelMin")`
-//@   sub R11 `ir == &vx_opaque_string()` => `vx_str_is_one(ir)` x2
+//@   sub R11 `attrs.get(__) == Some(&vx_opaque_string())` => `attrs.vx_flag($1)` *
+//@   sub R11 `ir == &vx_opaque_string()` => `vx_str_is_one(ir)` ?
 //@   sub R11 `s.parse::<u8>().unwrap_or_default()` => `vx_parse_u8(s).unwrap_or(0)`
 //@   sub R11 `s.parse::<u8>().unwrap_or(0xff)` => `vx_parse_u8(s).unwrap_or(0xff)` x2
 //@   sub R11 `Char4OrRegex::from_str(` => `vx_char4orregex_from_str(` *
@@ -388,6 +379,9 @@ impl VxBytesRegex {
 impl VxFancyRegex {
     #[verifier::external_body]
     pub fn as_str(&self) -> (r: &str) ensures r@ == fancy_pat(self) { unimplemented!() }
+    // `.as_str().replacen("(?i)", "", 1)`: the pattern text with its first "(?i)" removed
+    #[verifier::external_body]
+    pub fn vx_strip_ci(&self) -> (r: String) ensures forall|p: Seq<char>| fancy_pat(self) == #[trigger] ci_prefixed(p) ==> r@ == p { unimplemented!() }
 }
 // `s.as_str().replacen("(?i)", "", 1)`: the first "(?i)" removed; for a pattern that was built as "(?i)" + p this gives p back
 #[verifier::external_body]
@@ -472,21 +466,81 @@ pub open spec fn type_post(f: &Filter, s0: &VxSerState, d: Doc) -> bool {
                     else { has(d, K_VERB_MSTP_MTIN, JV::U(vm.0 as u64)) },
     }
 }
-//@ extract src/filter/filter_impl.rs region `let kind: u8` .. `if self.negate_match {` in <Serialize for Filter>::serialize
-//@   sig pub fn ser_head(vx_self: &Filter, state: &mut VxSerState) -> (r: Result<(), VxSerErr>)
-//@   tail `Ok(())`
+// Serialize for Filter as a whole, member by member: the serializer model watches ONE member number w (any: it is a parameter of
+// the proof) and records what is written under it; every other write leaves the record alone. One proof for an arbitrary w is a
+// proof for every member - without any reasoning about maps or the order of the writes.
+pub open spec fn id_text(c: Option<Char4OrRegex>) -> Option<JV> {
+    match c { None => None, Some(Char4OrRegex::DltChar4(x)) => Some(JV::S(char4_text(x))), Some(Char4OrRegex::Regex(r)) => Some(JV::S(bre_pat(&r))) }
+}
+pub open spec fn id_flag(c: Option<Char4OrRegex>) -> Option<JV> {
+    match c { None => None, Some(Char4OrRegex::DltChar4(x)) => Some(JV::B(false)), Some(Char4OrRegex::Regex(r)) => Some(JV::B(true)) }
+}
+// what the document has under member w for the filter f (from the property: exactly the members that describe the criteria)
+pub open spec fn member_ok(f: &Filter, w: u8, v: Option<JV>) -> bool {
+    if w == K_TYPE { v == Some(JV::U(match f.kind { FilterKind::Positive => 0u64, FilterKind::Negative => 1u64, FilterKind::Marker => 2u64, FilterKind::Event => 3u64 })) }
+    else if w == K_ENABLED { v == (if f.enabled { None::<JV> } else { Some(JV::B(false)) }) }
+    else if w == K_NOT { v == (if f.negate_match { Some(JV::B(true)) } else { None::<JV> }) }
+    else if w == K_AT_LOAD_TIME { v == (if f.at_load_time { Some(JV::B(true)) } else { None::<JV> }) }
+    else if w == K_ECU { v == id_text(f.ecu) } else if w == K_ECU_IS_REGEX { v == id_flag(f.ecu) }
+    else if w == K_APID { v == id_text(f.apid) } else if w == K_APID_IS_REGEX { v == id_flag(f.apid) }
+    else if w == K_CTID { v == id_text(f.ctid) } else if w == K_CTID_IS_REGEX { v == id_flag(f.ctid) }
+    else if w == K_IGNORE_CASE_PAYLOAD { v == (if f.ignore_case_payload { Some(JV::B(true)) } else { None::<JV> }) }
+    else if w == K_PAYLOAD_REGEX {
+        if f.payload_regex is Some {
+            v is Some && v->Some_0 is S
+            && (if f.ignore_case_payload { forall|p: Seq<char>| fancy_pat(&f.payload_regex->Some_0) == #[trigger] ci_prefixed(p) ==> v->Some_0->S_0 == p }
+                else { v->Some_0->S_0 == fancy_pat(&f.payload_regex->Some_0) })
+        } else { v is None }
+    }
+    else if w == K_PAYLOAD { v == (if f.payload_regex is None && f.payload is Some { Some(JV::S(f.payload->Some_0@)) } else { None::<JV> }) }
+    else if w == K_LOG_LEVEL_MIN { v == (match f.loglevel_min { Some(l) => Some(JV::U(l as u64)), None => None::<JV> }) }
+    else if w == K_LOG_LEVEL_MAX { v == (match f.loglevel_max { Some(l) => Some(JV::U(l as u64)), None => None::<JV> }) }
+    else if w == K_LIFECYCLES { v == (match f.lifecycles { Some(l) => Some(JV::A(l@)), None => None::<JV> }) }
+    else if w == K_VERB_MSTP_MTIN { v == (match f.verb_mstp_mtin { Some(vm) => if vm.1 == (0x07u8 << 1) { None::<JV> } else { Some(JV::U(vm.0 as u64)) }, None => None::<JV> }) }
+    else if w == K_MSTP { v == (match f.verb_mstp_mtin { Some(vm) => if vm.1 == (0x07u8 << 1) { Some(JV::U(((vm.0 >> 1) & 0x07u8) as u64)) } else { None::<JV> }, None => None::<JV> }) }
+    else { v is None }
+}
+#[verifier::external_body]
+pub struct VxSerOkW { _p: u8 }
+impl VxSerOkW { pub uninterp spec fn watch(&self) -> u8; pub uninterp spec fn val(&self) -> Option<JV>; }
+#[verifier::external_body]
+pub struct VxSerStateW { _p: u8 }
+impl VxSerStateW {
+    pub uninterp spec fn watch(&self) -> u8;
+    pub uninterp spec fn val(&self) -> Option<JV>;
+    #[verifier::external_body]
+    pub fn serialize_field<T: VJsonVal + ?Sized>(&mut self, key: u8, value: &T) -> (r: Result<(), VxSerErr>)
+        ensures final(self).watch() == old(self).watch(), r is Ok ==> final(self).val() == (if key == old(self).watch() { Some(value.jv()) } else { old(self).val() }),
+    { unimplemented!() }
+    #[verifier::external_body]
+    pub fn end(self) -> (r: Result<VxSerOkW, VxSerErr>)
+        ensures r is Ok ==> r->Ok_0.watch() == self.watch() && r->Ok_0.val() == self.val(),
+    { unimplemented!() }
+}
+#[verifier::external_body]
+pub struct VxSerializerW { _p: u8 }
+impl VxSerializerW {
+    pub uninterp spec fn watch(&self) -> u8;
+    #[verifier::external_body]
+    pub fn serialize_struct(self, name: &str, n: usize) -> (r: Result<VxSerStateW, VxSerErr>)
+        ensures r is Ok ==> r->Ok_0.watch() == self.watch() && r->Ok_0.val() is None,
+    { unimplemented!() }
+}
+//@ extract src/filter/filter_impl.rs <Serialize for Filter>::serialize
+//@   rename ser_filter
+//@   sub R12 `fn serialize<S>(&self, serializer: S) -> Result<S::Ok, S::Error> where S: Serializer,` => `fn serialize(vx_self: &Filter, serializer: VxSerializerW) -> Result<VxSerOkW, VxSerErr>`
 //@   sub R12 `self` => `vx_self` *
 //@   sub R12 `serialize_field("type",` => `serialize_field(K_TYPE,` ?
 //@   sub R12 `serialize_field("enabled",` => `serialize_field(K_ENABLED,` ?
 //@   sub R12 `serialize_field("atLoadTime",` => `serialize_field(K_AT_LOAD_TIME,` ?
 //@   sub R12 `serialize_field("not",` => `serialize_field(K_NOT,` ?
-//@   sub R12 `serialize_field("ecu",` => `serialize_field(K_ECU,` ?
-//@   sub R12 `serialize_field("ecuIsRegex",` => `serialize_field(K_ECU_IS_REGEX,` ?
-//@   sub R12 `serialize_field("apid",` => `serialize_field(K_APID,` ?
-//@   sub R12 `serialize_field("apidIsRegex",` => `serialize_field(K_APID_IS_REGEX,` ?
-//@   sub R12 `serialize_field("ctid",` => `serialize_field(K_CTID,` ?
-//@   sub R12 `serialize_field("ctidIsRegex",` => `serialize_field(K_CTID_IS_REGEX,` ?
-//@   sub R12 `serialize_field("payloadRegex",` => `serialize_field(K_PAYLOAD_REGEX,` ?
+//@   sub R12 `serialize_field("ecu",` => `serialize_field(K_ECU,` *
+//@   sub R12 `serialize_field("ecuIsRegex",` => `serialize_field(K_ECU_IS_REGEX,` *
+//@   sub R12 `serialize_field("apid",` => `serialize_field(K_APID,` *
+//@   sub R12 `serialize_field("apidIsRegex",` => `serialize_field(K_APID_IS_REGEX,` *
+//@   sub R12 `serialize_field("ctid",` => `serialize_field(K_CTID,` *
+//@   sub R12 `serialize_field("ctidIsRegex",` => `serialize_field(K_CTID_IS_REGEX,` *
+//@   sub R12 `serialize_field("payloadRegex",` => `serialize_field(K_PAYLOAD_REGEX,` *
 //@   sub R12 `serialize_field("payload",` => `serialize_field(K_PAYLOAD,` ?
 //@   sub R12 `serialize_field("ignoreCasePayload",` => `serialize_field(K_IGNORE_CASE_PAYLOAD,` ?
 //@   sub R12 `serialize_field("logLevelMin",` => `serialize_field(K_LOG_LEVEL_MIN,` ?
@@ -495,94 +549,11 @@ pub open spec fn type_post(f: &Filter, s0: &VxSerState, d: Doc) -> bool {
 //@   sub R12 `serialize_field("verb_mstp_mtin",` => `serialize_field(K_VERB_MSTP_MTIN,` ?
 //@   sub R12 `serialize_field("mstp",` => `serialize_field(K_MSTP,` ?
 //@   sub R11 `vx_self.kind as u8` => `vx_kind_u8(vx_self.kind)` ?
-//@   sub R11 `s.as_str().replacen("(?i)", "", 1)` => `vx_strip_ci(s.as_str())` ?
-//@   spec
-//@|    ensures r is Ok ==> head_post(vx_self, old(state), final(state)), // O:to_json.head
-//@ end
-//@ extract src/filter/filter_impl.rs region `if let Some(s) = &self.ecu {` .. `if let Some(s) = &self.ctid {` in <Serialize for Filter>::serialize
-//@   sig pub fn ser_ids(vx_self: &Filter, state: &mut VxSerState) -> (r: Result<(), VxSerErr>)
-//@   tail `Ok(())`
-//@   sub R12 `self` => `vx_self` *
-//@   sub R12 `serialize_field("type",` => `serialize_field(K_TYPE,` ?
-//@   sub R12 `serialize_field("enabled",` => `serialize_field(K_ENABLED,` ?
-//@   sub R12 `serialize_field("atLoadTime",` => `serialize_field(K_AT_LOAD_TIME,` ?
-//@   sub R12 `serialize_field("not",` => `serialize_field(K_NOT,` ?
-//@   sub R12 `serialize_field("ecu",` => `serialize_field(K_ECU,` ?
-//@   sub R12 `serialize_field("ecuIsRegex",` => `serialize_field(K_ECU_IS_REGEX,` ?
-//@   sub R12 `serialize_field("apid",` => `serialize_field(K_APID,` ?
-//@   sub R12 `serialize_field("apidIsRegex",` => `serialize_field(K_APID_IS_REGEX,` ?
-//@   sub R12 `serialize_field("ctid",` => `serialize_field(K_CTID,` ?
-//@   sub R12 `serialize_field("ctidIsRegex",` => `serialize_field(K_CTID_IS_REGEX,` ?
-//@   sub R12 `serialize_field("payloadRegex",` => `serialize_field(K_PAYLOAD_REGEX,` ?
-//@   sub R12 `serialize_field("payload",` => `serialize_field(K_PAYLOAD,` ?
-//@   sub R12 `serialize_field("ignoreCasePayload",` => `serialize_field(K_IGNORE_CASE_PAYLOAD,` ?
-//@   sub R12 `serialize_field("logLevelMin",` => `serialize_field(K_LOG_LEVEL_MIN,` ?
-//@   sub R12 `serialize_field("logLevelMax",` => `serialize_field(K_LOG_LEVEL_MAX,` ?
-//@   sub R12 `serialize_field("lifecycles",` => `serialize_field(K_LIFECYCLES,` ?
-//@   sub R12 `serialize_field("verb_mstp_mtin",` => `serialize_field(K_VERB_MSTP_MTIN,` ?
-//@   sub R12 `serialize_field("mstp",` => `serialize_field(K_MSTP,` ?
-//@   sub R11 `vx_self.kind as u8` => `vx_kind_u8(vx_self.kind)` ?
-//@   sub R11 `s.as_str().replacen("(?i)", "", 1)` => `vx_strip_ci(s.as_str())` ?
-//@   spec
-//@|    ensures r is Ok ==> ids_post(vx_self, old(state), final(state)), // O:to_json.ids (an id criterion is written as its text plus the literal/regex flag)
-//@ end
-//@ extract src/filter/filter_impl.rs region `if let Some(s) = &self.payload_regex {` .. `if self.ignore_case_payload { state.serialize_field("ignoreCasePayload"` in <Serialize for Filter>::serialize
-//@   sig pub fn ser_payload(vx_self: &Filter, state: &mut VxSerState) -> (r: Result<(), VxSerErr>)
-//@   tail `Ok(())`
-//@   sub R12 `self` => `vx_self` *
-//@   sub R12 `serialize_field("type",` => `serialize_field(K_TYPE,` ?
-//@   sub R12 `serialize_field("enabled",` => `serialize_field(K_ENABLED,` ?
-//@   sub R12 `serialize_field("atLoadTime",` => `serialize_field(K_AT_LOAD_TIME,` ?
-//@   sub R12 `serialize_field("not",` => `serialize_field(K_NOT,` ?
-//@   sub R12 `serialize_field("ecu",` => `serialize_field(K_ECU,` ?
-//@   sub R12 `serialize_field("ecuIsRegex",` => `serialize_field(K_ECU_IS_REGEX,` ?
-//@   sub R12 `serialize_field("apid",` => `serialize_field(K_APID,` ?
-//@   sub R12 `serialize_field("apidIsRegex",` => `serialize_field(K_APID_IS_REGEX,` ?
-//@   sub R12 `serialize_field("ctid",` => `serialize_field(K_CTID,` ?
-//@   sub R12 `serialize_field("ctidIsRegex",` => `serialize_field(K_CTID_IS_REGEX,` ?
-//@   sub R12 `serialize_field("payloadRegex",` => `serialize_field(K_PAYLOAD_REGEX,` ?
-//@   sub R12 `serialize_field("payload",` => `serialize_field(K_PAYLOAD,` ?
-//@   sub R12 `serialize_field("ignoreCasePayload",` => `serialize_field(K_IGNORE_CASE_PAYLOAD,` ?
-//@   sub R12 `serialize_field("logLevelMin",` => `serialize_field(K_LOG_LEVEL_MIN,` ?
-//@   sub R12 `serialize_field("logLevelMax",` => `serialize_field(K_LOG_LEVEL_MAX,` ?
-//@   sub R12 `serialize_field("lifecycles",` => `serialize_field(K_LIFECYCLES,` ?
-//@   sub R12 `serialize_field("verb_mstp_mtin",` => `serialize_field(K_VERB_MSTP_MTIN,` ?
-//@   sub R12 `serialize_field("mstp",` => `serialize_field(K_MSTP,` ?
-//@   sub R11 `vx_self.kind as u8` => `vx_kind_u8(vx_self.kind)` ?
-//@   sub R11 `s.as_str().replacen("(?i)", "", 1)` => `vx_strip_ci(s.as_str())` ?
-//@   spec
-//@|    ensures r is Ok ==> payload_post(vx_self, old(state), final(state)), // O:to_json.payload
-//@ end
-//@ extract src/filter/filter_impl.rs region `if let Some(lvl) = &self.loglevel_min {` .. `$end` in <Serialize for Filter>::serialize
-//@   sig pub fn ser_rest(vx_self: &Filter, mut state: VxSerState) -> (r: Result<VxSerOk, VxSerErr>)
-//@   sub R12 `self` => `vx_self` *
-//@   sub R12 `serialize_field("type",` => `serialize_field(K_TYPE,` ?
-//@   sub R12 `serialize_field("enabled",` => `serialize_field(K_ENABLED,` ?
-//@   sub R12 `serialize_field("atLoadTime",` => `serialize_field(K_AT_LOAD_TIME,` ?
-//@   sub R12 `serialize_field("not",` => `serialize_field(K_NOT,` ?
-//@   sub R12 `serialize_field("ecu",` => `serialize_field(K_ECU,` ?
-//@   sub R12 `serialize_field("ecuIsRegex",` => `serialize_field(K_ECU_IS_REGEX,` ?
-//@   sub R12 `serialize_field("apid",` => `serialize_field(K_APID,` ?
-//@   sub R12 `serialize_field("apidIsRegex",` => `serialize_field(K_APID_IS_REGEX,` ?
-//@   sub R12 `serialize_field("ctid",` => `serialize_field(K_CTID,` ?
-//@   sub R12 `serialize_field("ctidIsRegex",` => `serialize_field(K_CTID_IS_REGEX,` ?
-//@   sub R12 `serialize_field("payloadRegex",` => `serialize_field(K_PAYLOAD_REGEX,` ?
-//@   sub R12 `serialize_field("payload",` => `serialize_field(K_PAYLOAD,` ?
-//@   sub R12 `serialize_field("ignoreCasePayload",` => `serialize_field(K_IGNORE_CASE_PAYLOAD,` ?
-//@   sub R12 `serialize_field("logLevelMin",` => `serialize_field(K_LOG_LEVEL_MIN,` ?
-//@   sub R12 `serialize_field("logLevelMax",` => `serialize_field(K_LOG_LEVEL_MAX,` ?
-//@   sub R12 `serialize_field("lifecycles",` => `serialize_field(K_LIFECYCLES,` ?
-//@   sub R12 `serialize_field("verb_mstp_mtin",` => `serialize_field(K_VERB_MSTP_MTIN,` ?
-//@   sub R12 `serialize_field("mstp",` => `serialize_field(K_MSTP,` ?
-//@   sub R11 `vx_self.kind as u8` => `vx_kind_u8(vx_self.kind)` ?
-//@   sub R11 `s.as_str().replacen("(?i)", "", 1)` => `vx_strip_ci(s.as_str())` ?
+//@   sub R11 `.as_str().replacen("(?i)", "", 1)` => `.vx_strip_ci()` ?
 //@   spec
 //@|    ensures
-//@|        r is Ok ==> rest_post(vx_self, &state, r->Ok_0.doc()), // O:to_json.rest
-//@|        r is Ok ==> type_post(vx_self, &state, r->Ok_0.doc()), // O:to_json.type (the message-type criterion is written too: as "mstp" when only the message type is filtered, else as "verb_mstp_mtin")
+//@|        r is Ok ==> member_ok(vx_self, serializer.watch(), r->Ok_0.val()), // O:to_json.members (for every member name: the document has under it exactly what describes the filter's criterion, and nothing under any other name)
 //@ end
-// the pieces are all there is: the function is `serialize_struct`, the four ranges, `end()`
-//@ count src/filter/filter_impl.rs <Serialize for Filter>::serialize `serialize_field(` == 25
 // ---------- oracle: a JSON document from which from_json rebuilds the criteria of f ----------
 pub open spec fn has(d: Doc, k: u8, v: JV) -> bool { d(k) == Some(v) }
 pub open spec fn doc_id(d: Doc, c: Option<Char4OrRegex>, key: u8, flag: u8) -> bool {
@@ -619,16 +590,20 @@ pub open spec fn doc_type_crit(f: &Filter, d: Doc) -> bool {
     }
 }
 
-// Serialize for Filter = serialize_struct (nothing written yet), the four ranges in this order, end(): the document describes the filter
-pub proof fn theorem_to_json(f: &Filter, s0: &VxSerState, s1: &VxSerState, s2: &VxSerState, s3: &VxSerState, d: Doc)
-    requires
-        forall|k: u8| #[trigger] s0.fget(k) is None,
-        head_post(f, s0, s1), ids_post(f, s1, s2), payload_post(f, s2, s3), rest_post(f, s3, d), type_post(f, s3, d),
+// a document whose every member is as member_ok says describes the filter (the form the round-trip theorem uses)
+pub proof fn theorem_to_json(f: &Filter, d: Doc)
+    requires forall|w: u8| member_ok(f, w, #[trigger] d(w)),
     ensures doc_describes(f, d), doc_type_crit(f, d), // O:to_json.describes (the written document has exactly the members that describe the filter)
 {
-    assert(forall|k: u8| !keys_head().contains(k) ==> s1.fget(k) == s0.fget(k));
-    assert(forall|k: u8| !keys_ids().contains(k) ==> s2.fget(k) == s1.fget(k));
-    assert(forall|k: u8| !keys_payload().contains(k) ==> s3.fget(k) == s2.fget(k));
+    assert(member_ok(f, K_TYPE, d(K_TYPE))); assert(member_ok(f, K_ENABLED, d(K_ENABLED))); assert(member_ok(f, K_NOT, d(K_NOT)));
+    assert(member_ok(f, K_AT_LOAD_TIME, d(K_AT_LOAD_TIME)));
+    assert(member_ok(f, K_ECU, d(K_ECU))); assert(member_ok(f, K_ECU_IS_REGEX, d(K_ECU_IS_REGEX)));
+    assert(member_ok(f, K_APID, d(K_APID))); assert(member_ok(f, K_APID_IS_REGEX, d(K_APID_IS_REGEX)));
+    assert(member_ok(f, K_CTID, d(K_CTID))); assert(member_ok(f, K_CTID_IS_REGEX, d(K_CTID_IS_REGEX)));
+    assert(member_ok(f, K_IGNORE_CASE_PAYLOAD, d(K_IGNORE_CASE_PAYLOAD))); assert(member_ok(f, K_PAYLOAD_REGEX, d(K_PAYLOAD_REGEX)));
+    assert(member_ok(f, K_PAYLOAD, d(K_PAYLOAD))); assert(member_ok(f, K_LOG_LEVEL_MIN, d(K_LOG_LEVEL_MIN)));
+    assert(member_ok(f, K_LOG_LEVEL_MAX, d(K_LOG_LEVEL_MAX))); assert(member_ok(f, K_LIFECYCLES, d(K_LIFECYCLES)));
+    assert(member_ok(f, K_VERB_MSTP_MTIN, d(K_VERB_MSTP_MTIN))); assert(member_ok(f, K_MSTP, d(K_MSTP)));
 }
 // ASSUMED about the regex crates and String: whether a compiled matcher accepts a text is a function of the pattern it was compiled
 // from; substring search is a function of the searched text's characters; a printable id survives Display + from_str
